@@ -33,6 +33,22 @@ PROPERTIES = {
         'level_note': 'Same trusted base as C03. Backward validation at commit is what is proved; equivalence to a serial order over whole histories is not derived. Reads are not recorded by callers today (outside reach).',
         'explanation': 'SSI clauses of the same commit() contract.',
     },
+    'C11': {
+        'units': ['filter_kani'],
+        'level': 'proof',
+        'technique': 'Kani/CBMC loop-free harnesses on the real eval_binary_op / eval_unary_op, operator and operand variants fixed, payloads over all bit patterns (complete)',
+        'level_text': 'Bit-precise proof of the three-valued kernel: And/Or/Xor are defined exactly on booleans, NOT maps true<->false and everything else to unknown, so for every value exactly one of p / NOT p / unknown holds; IsNull/IsNotNull are total and complementary; <,>= and >,<= are complementary whenever comparable.',
+        'level_note': 'Only the predicate kernel: LIMIT/SKIP/DISTINCT/UNION/COUNT identities live in operators over dyn Operator + DataChunk + hash sets, outside both verifiers. Receiver is never read (rule M1). Regex arm stubbed out (Kani ICE).',
+        'explanation': 'Three-valued logic kernel of crates/grafeo-core/src/execution/operators/filter.rs checked on the real functions for all payloads.',
+    },
+    'C12': {
+        'units': ['filter_kani'],
+        'level': 'proof',
+        'technique': 'Kani/CBMC loop-free harnesses: CBMC overflow / division-by-zero / shift checks on the real arithmetic of expression evaluation, all i64/f64 payloads (complete)',
+        'level_text': 'Proof that integer and float arithmetic in expression evaluation (+ - * / % unary minus, comparisons) returns a value or NULL and never panics, for every pair of operands.',
+        'level_note': 'Arithmetic kernel only: lexers, parsers, translators, binder and planner are not under contract (str byte reasoning unsupported in Verus; Kani could only give tiny bounded checks). CBMC NaN-generation checks are ignored (not a Rust panic).',
+        'explanation': 'Execution-time arithmetic of filter.rs: every operator x operand-variant pair is one loop-free harness.',
+    },
     'C15': {
         'units': ['rle', 'bitpack', 'delta', 'bitvec'],
         'level': 'proof',
